@@ -18,6 +18,8 @@ import (
 	"math"
 	"net"
 	"net/http"
+	"os"
+	"path/filepath"
 	"strings"
 	"sync"
 	"sync/atomic"
@@ -328,4 +330,234 @@ func (g *srvGen) opBulkServers() {
 	}
 	s.T.Count("bulk-server-list")
 	s.Servers()
+}
+
+// strayFiles leaves files next to the server's own that no version of the server reads: editor backups,
+// copies, and what an interrupted write-to-a-temporary-file-and-rename scheme would leave behind (a copy
+// of the file as it was, sometimes with a little more). They must not matter to any later start or rotation.
+func (g *srvGen) strayFiles() {
+	r, dir := g.r, g.s.E.Dir
+	names := []string{"equipment-authorizations.dat", "equipment-reports.dat", server.AllDeviceStatsHistoryFile, "gcaPubKey.dat", "server.keys"}
+	for _, n := range names {
+		if !r.Chance(35) {
+			continue
+		}
+		cur, _ := os.ReadFile(filepath.Join(dir, n))
+		body := append([]byte(nil), cur...)
+		switch r.Intn(3) {
+		case 0:
+			body = append(body, r.Bytes(r.Intn(200))...)
+		case 1:
+			body = r.Bytes(r.Intn(300))
+		}
+		suffix := []string{".tmp", ".new", "~", ".bak", ".compact", ".swp"}[r.Intn(6)]
+		os.WriteFile(filepath.Join(dir, n+suffix), body, 0644)
+		g.s.T.Count("stray-file:" + suffix)
+	}
+}
+
+// opStartFault: the server is started while one of its files cannot be read (a directory sits at its
+// path, so the read fails with an error that is not "no such file"). The start has to fail. The file is
+// then put back and the server started normally: nothing was lost.
+func (g *srvGen) opStartFault() error {
+	s, r := g.s, g.r
+	var have []string
+	for _, n := range []string{"gcaPubKey.dat", "equipment-authorizations.dat", "equipment-reports.dat", server.AllDeviceStatsHistoryFile, "server.keys", "gcaTempPubKey.dat"} {
+		if st, err := os.Stat(filepath.Join(s.E.Dir, n)); err == nil && st.Mode().IsRegular() {
+			have = append(have, n)
+		}
+	}
+	if len(have) == 0 {
+		return nil
+	}
+	n := have[r.Intn(len(have))]
+	if r.Chance(40) {
+		// the one file whose absence means "not registered yet": unreadable is not absent
+		for _, x := range have {
+			if x == "gcaPubKey.dat" {
+				n = x
+			}
+		}
+	}
+	path := filepath.Join(s.E.Dir, n)
+	if err := s.E.Stop(); err != nil {
+		return err
+	}
+	if os.Rename(path, path+".aside") != nil {
+		return s.restartAfterStop()
+	}
+	os.Mkdir(path, 0755)
+	s.InStart = true
+	err := s.E.Start()
+	s.InStart = false
+	obs := "fail"
+	if err == nil {
+		obs = "started"
+		s.E.Stop()
+	}
+	os.RemoveAll(path)
+	os.Rename(path+".aside", path)
+	s.T.Count("startfault:" + n + ":" + obs)
+	s.T.Line("srv.startfault what=unreadable:%s => %s", n, obs)
+	return s.restartAfterStop()
+}
+
+// opDiskDamage: one bit of one stored authorization or report flips while the server is down.
+func (g *srvGen) opDiskDamage() error {
+	s, r := g.s, g.r
+	file, rec, name := "auths", 148, "equipment-authorizations.dat"
+	if r.Chance(50) {
+		file, rec, name = "reports", 80, "equipment-reports.dat"
+	}
+	path := filepath.Join(s.E.Dir, name)
+	raw, err := os.ReadFile(path)
+	if err != nil || len(raw) < rec || len(raw)%rec != 0 {
+		return nil
+	}
+	snap := s.E.S.VerifSnapshot()
+	s.Keys[snap.GCAKey] = true
+	for _, ea := range snap.Equipment {
+		s.Keys[ea.PublicKey] = true
+	}
+	if err := s.E.Stop(); err != nil {
+		return err
+	}
+	idx := r.Intn(len(raw) / rec)
+	bit := r.Intn(rec * 8)
+	raw[idx*rec+bit/8] ^= 1 << uint(bit%8)
+	os.WriteFile(path, raw, 0644)
+	// what the start will ask the signature check about this record
+	b := raw[idx*rec : (idx+1)*rec]
+	if file == "auths" {
+		if ea, err := glow.DeserializeEquipmentAuthorization(b); err == nil {
+			s.Keys[ea.PublicKey] = true
+			s.oracleAll(ea.SigningBytes(), ea.Signature)
+			// the driver asks in advance for every verdict a start could need, also for the reports of the id
+			// this record now names under the key it now carries (the real start never gets that far)
+			reps, _ := os.ReadFile(filepath.Join(s.E.Dir, "equipment-reports.dat"))
+			for i := 0; i+80 <= len(reps); i += 80 {
+				if rep, err := glow.DeserializeReport(reps[i : i+80]); err == nil && rep.ShortID == ea.ShortID {
+					s.oracle(ea.PublicKey, rep.SigningBytes(), rep.Signature)
+				}
+			}
+		}
+	} else if rep, err := glow.DeserializeReport(b); err == nil {
+		s.oracleAll(rep.SigningBytes(), rep.Signature)
+	}
+	s.T.Count("disk-damage:" + file)
+	s.T.Line("srv.damage file=%s idx=%d bit=%d", file, idx, bit)
+	return s.restartAfterStop()
+}
+
+// opSlowSection: one critical section takes longer than the deadline of a sync connection that is waiting
+// for the same mutex (an authorization is held between its write and its memory update for 3.2 s). The
+// sync request may go unanswered; what must not happen is that the wait leaves the mutex locked for good.
+func (g *srvGen) opSlowSection() {
+	s, r := g.s, g.r
+	if !g.regDone || s.E.S == nil {
+		return
+	}
+	snap := s.E.S.VerifSnapshot()
+	ea := SignAuth(g.freshAuth(uint32(6500+r.Intn(400)), detKey(g.seed, 970+r.Intn(10))), s.E.GCA.Priv)
+	s.Keys[ea.PublicKey] = true
+	s.oracle(snap.GCAKey, ea.SigningBytes(), ea.Signature)
+	_, had := snap.Equipment[ea.ShortID]
+	id := ea.ShortID
+	if len(g.devs) > 0 {
+		id = g.devs[r.Intn(len(g.devs))].id
+	}
+	_, tcp, _ := s.E.S.Ports()
+	fired := false
+	doneB := make(chan struct{})
+	server.VerifSetPoint("persist:auth-written", func() {
+		if fired {
+			return
+		}
+		fired = true
+		go func() {
+			defer close(doneB)
+			c, err := net.DialTimeout("tcp", fmt.Sprintf("127.0.0.1:%d", tcp), 2*time.Second)
+			if err != nil {
+				return
+			}
+			defer c.Close()
+			var b [4]byte
+			binary.LittleEndian.PutUint32(b[:], id)
+			c.Write(b[:])
+			c.SetReadDeadline(time.Now().Add(8 * time.Second))
+			io.Copy(io.Discard, c)
+		}()
+		time.Sleep(3200 * time.Millisecond)
+	})
+	_, err := s.E.S.VerifAuthorize(ea)
+	server.VerifSetPoint("persist:auth-written", nil)
+	if !fired {
+		close(doneB)
+	}
+	obsA := "new"
+	if err != nil {
+		obsA = "refused"
+	} else if had {
+		obsA = "ok"
+	}
+	select {
+	case <-doneB:
+	case <-time.After(12 * time.Second):
+	}
+	s.T.Count("slow-critical-section")
+	if !within(6*time.Second, func() bool { s.E.S.VerifSnapshot(); return true }) {
+		s.T.Line("srv.authorize a=%s => %s", hx(ea.Serialize()), obsA)
+		s.T.Line("srv.parcheck what=sync-request-waiting-behind-a-slow-critical-section => STUCK:the state mutex is still held 6 s after the section ended")
+		s.Lost = true
+		return
+	}
+	if obsA == "refused" {
+		for _, b := range s.E.S.VerifSnapshot().Bans {
+			if b == ea.ShortID {
+				obsA = "banned"
+			}
+		}
+	}
+	s.emit("srv.authorize a="+hx(ea.Serialize()), obsA)
+	if obsA == "new" {
+		g.authsSeen = append(g.authsSeen, ea)
+	}
+}
+
+// opUDPRepeat: the same datagram arrives twice in a row through the real socket, and between the two
+// arrivals the reason why the first was dropped goes away (its device gets authorized, or the clock reaches
+// its window). The second copy is a datagram like any other.
+func (g *srvGen) opUDPRepeat() {
+	s, r := g.s, g.r
+	if !g.regDone || s.E.S == nil {
+		return
+	}
+	now := glow.CurrentTimeslot()
+	if r.Chance(50) || len(g.devs) == 0 {
+		k := detKey(g.seed, 940+r.Intn(20))
+		ea := SignAuth(g.freshAuth(uint32(8000+r.Intn(500)), k), s.E.GCA.Priv)
+		d := MkReport(ea.ShortID, now, 2+uint64(r.Intn(900)), k.Priv).Serialize()
+		if s.DgramUDPPlain(d) == "lost" {
+			return
+		}
+		if s.Authorize(ea, false) == "new" {
+			g.authsSeen = append(g.authsSeen, ea)
+		}
+		s.DgramUDPPlain(d)
+		g.sent = append(g.sent, d)
+		s.T.Count("udp-repeat:authorized-in-between")
+		return
+	}
+	dv := g.devs[r.Intn(len(g.devs))]
+	if uint64(now)+440 > math.MaxUint32 {
+		return
+	}
+	d := MkReport(dv.id, now+433+uint32(r.Intn(5)), 2+uint64(r.Intn(900)), dv.key.Priv).Serialize()
+	if s.DgramUDPPlain(d) == "lost" {
+		return
+	}
+	s.SetNow(now + 1 + uint32(r.Intn(6)))
+	s.DgramUDPPlain(d)
+	g.sent = append(g.sent, d)
+	s.T.Count("udp-repeat:clock-in-between")
 }
